@@ -185,7 +185,7 @@ pub fn eval_stream<M: RefModel>(run: &mut Run, bytes: &[u8]) {
 pub fn check_decode<M: RefModel>(run: &mut Run) {
     let set = <M::D as Dec>::NAME;
     run.rule = format!(
-        "Exhaustive: the reachable graph of the real {set} decoder (BFS over cloned states, 256 bytes per state) is walked in product with the reference automaton written from the property statement + README conversion table; every reachable (impl state, model context, byte) cell is compared, each cell being a real execution new(); feed(witness history); feed(byte). The same (context, byte) cells are repeated through Keyboard::add_byte. Pumping: every byte value repeated 700 times and typical sequences (typematic key, tap, shifted key, unknown codes, Pause, PrintScreen, status bytes) repeated for >= 70,000 bytes, against the model at every step. Random: structured byte streams (well-formed keys, typematic repeats, error bursts, undefined codes, prefixes in code position, raw bytes, status bytes) compared step by step with the model, shrunk by proptest. Non-trivial cell = taken from a non-initial context or yielding a key event (distinct = distinct (context, byte)); non-trivial stream = contains a multi-byte sequence and an error (distinct = distinct byte string)."
+        "Exhaustive: the reachable graph of the real {set} decoder (BFS over cloned states, 256 bytes per state) is walked in product with the reference automaton written from the property statement + README conversion table; every reachable (impl state, model context, byte) cell is compared, each cell being a real execution new(); feed(witness history); feed(byte). The same (context, byte) cells are repeated through Keyboard::add_byte. Deep-history families: key held for 700 repeats then 1-8 copies of any byte then the key again; key + status byte + 2500 repeats; every ordered pair of complete cells repeated 24 times; wrap probes (error cell, 254-258 event-producing fillers, every byte). Pumping: every byte value repeated 700 times and typical sequences (typematic key, tap, shifted key, unknown codes, Pause, PrintScreen, status bytes) repeated for >= 70,000 bytes, against the model at every step. Random: structured byte streams (well-formed keys, typematic repeats, error bursts, undefined codes, prefixes in code position, raw bytes, status bytes) compared step by step with the model, shrunk by proptest. Non-trivial cell = taken from a non-initial context or yielding a key event (distinct = distinct (context, byte)); non-trivial stream = contains a multi-byte sequence and an error (distinct = distinct byte string)."
     );
     run.assumptions = vec![
         "advance_state is a deterministic function of (decoder state, byte): safe Rust, no statics/interior mutability (cross-checked by the hook-free random layer)".into(),
@@ -295,6 +295,12 @@ pub fn check_decode<M: RefModel>(run: &mut Run) {
                "cells": cells, "event_outputs": events, "error_outputs": errors, "none_outputs": nones}),
     );
 
+    // ---- (a') the graph did not close (a wide counter or cache makes every state new):
+    //      fingerprint-guided product walk with counter-like Debug tokens masked ------------
+    if !g.closed {
+        guided_walk::<M>(run, &g, &mtab, &ctxs, start_c);
+    }
+
     // ---- derived: every decodable key by its documented make and break sequence ----------
     let mut keys_checked = 0;
     for (k, s1, s2) in sc::TABLE.iter() {
@@ -341,9 +347,195 @@ pub fn check_decode<M: RefModel>(run: &mut Run) {
     }
     run.part("pumping", json!({"bytes_fed": pumped, "single_byte_repeats": 700, "pattern_steps": ">= 70000 each", "patterns": pump_patterns(<M::D as Dec>::IS_SET2).iter().map(|p| hex(p)).collect::<Vec<_>>()}));
 
+    // ---- (b'') repetition grammar, wrap probes, all ordered cell pairs -----------------------
+    deep_streams::<M>(run, &mtab, &ctxs, start_c);
+
     // ---- (c) random structured streams -----------------------------------------------------
     let n = run.tier.pick(20_000u32, 2_000_000u32);
     random_streams::<M>(run, n);
+}
+
+/// The byte-stream families G1a, G1b, G1d, G1e (see deep_streams); sizes returned per family.
+pub fn deep_stream_families(set2: bool, thorough: bool) -> (Vec<Vec<u8>>, (usize, usize, usize, usize)) {
+    let enc = |k: KeyCode, st: KeyState| -> Vec<u8> { if set2 { sc::set2_encode(k, st) } else { sc::set1_encode(k, st) }.unwrap_or_default() };
+    let keys = [KeyCode::A, KeyCode::LShift, KeyCode::ArrowUp, KeyCode::Numpad8, KeyCode::RControl, KeyCode::Return];
+    let mut fam: Vec<Vec<u8>> = Vec::new();
+    // G1a
+    for k in keys {
+        let mk = enc(k, KeyState::Down);
+        let held: Vec<u8> = mk.iter().copied().cycle().take(mk.len() * 700).collect();
+        let tail: Vec<u8> = [mk.clone(), enc(k, KeyState::Up), enc(KeyCode::Q, KeyState::Down), mk.clone()].concat();
+        for b in 0..=255u8 {
+            for j in [1usize, 2, 3, 5, 8] {
+                let mut v = held.clone();
+                v.extend(std::iter::repeat(b).take(j));
+                v.extend(&tail);
+                fam.push(v);
+            }
+        }
+        for pfx in [0xE0u8, 0xE1] {
+            for c in [0x00u8, 0x02, 0x7F, 0xFF] {
+                for j in [1usize, 3, 8] {
+                    let mut v = held.clone();
+                    for _ in 0..j { v.push(pfx); v.push(c); }
+                    v.extend(&tail);
+                    fam.push(v);
+                }
+            }
+        }
+    }
+    let g1a = fam.len();
+    // G1b
+    for k in keys {
+        let mk = enc(k, KeyState::Down);
+        for sp in [0x00u8, 0xFF, 0xFA, 0xAA, 0xEE, 0xFE, 0xFC, 0x7F] {
+            let mut v = mk.clone();
+            v.push(sp);
+            for _ in 0..2500 { v.extend(&mk); }
+            v.extend(enc(k, KeyState::Up));
+            v.extend(&mk);
+            fam.push(v);
+        }
+    }
+    let g1b = fam.len() - g1a;
+    // G1d
+    let ns: Vec<usize> = if thorough { vec![254, 255, 256, 257, 258, 65534, 65535, 65536, 65537, 65538] } else { vec![254, 255, 256, 257, 258] };
+    let xs: Vec<Vec<u8>> = vec![vec![0xE0, 0x00], vec![0xE0, 0xFF], vec![0xE1, 0x00], vec![0xFF], vec![0x00], vec![0xE0, 0x02], vec![0xE1, 0x77], vec![0xE0], vec![0xE1]];
+    let fills: Vec<Vec<u8>> = vec![enc(KeyCode::A, KeyState::Down), [enc(KeyCode::A, KeyState::Down), enc(KeyCode::A, KeyState::Up)].concat()];
+    for x in &xs {
+        for f in &fills {
+            for &n in &ns {
+                let mut base = x.clone();
+                for _ in 0..n { base.extend(f); }
+                for p in (0..=255u8).step_by(if n > 1000 { 16 } else { 1 }) {
+                    let mut v = base.clone();
+                    v.push(p);
+                    v.extend(enc(KeyCode::Q, KeyState::Down));
+                    fam.push(v);
+                }
+            }
+        }
+    }
+    let g1d = fam.len() - g1a - g1b;
+    // G1e: two-scale periodic traffic (A^p B)^m: a held key with a stray byte every p repeats
+    let strays: Vec<Vec<u8>> = vec![vec![0x00], vec![0xFF], vec![0xFA], vec![0xAA], vec![0xEE], vec![0xFE], vec![0x02], vec![0x7F], vec![0xE0, 0x00], vec![0xE0, 0x02], vec![0xE1, 0x00], vec![0xF3]];
+    for k in keys {
+        let mk = enc(k, KeyState::Down);
+        for st in &strays {
+            for p in [1usize, 2, 3, 8, 16, 64, 255, 256, 257, 300, 512, 1024] {
+                let periods = (6000 / (p + 1)).clamp(5, 64);
+                let mut v = Vec::new();
+                for _ in 0..periods {
+                    for _ in 0..p { v.extend(&mk); }
+                    v.extend(st);
+                }
+                for _ in 0..p.min(300) { v.extend(&mk); }
+                v.extend(enc(k, KeyState::Up));
+                v.extend(enc(KeyCode::Q, KeyState::Down));
+                fam.push(v);
+            }
+        }
+    }
+    // G1f: long typing sessions (taps over K distinct keys), in this set's encoding and in the
+    // OTHER set's encoding (a mis-configured controller delivers the wrong set for minutes)
+    let typed: Vec<KeyCode> = sc::TABLE.iter().filter(|(_, s1, s2)| s1.is_some() && s2.is_some()).map(|(k, _, _)| *k).collect();
+    for own in [true, false] {
+        let e2 = |k: KeyCode, st: KeyState| -> Vec<u8> { if set2 == own { sc::set2_encode(k, st) } else { sc::set1_encode(k, st) }.unwrap_or_default() };
+        for kk in [1usize, 5, 16, 40, 100] {
+            for off in [0usize, 15] {
+                let mut v = Vec::new();
+                for i in 0..3000usize {
+                    let k = typed[(off + i % kk) % typed.len()];
+                    v.extend(e2(k, KeyState::Down));
+                    v.extend(e2(k, KeyState::Up));
+                }
+                v.extend(enc(KeyCode::A, KeyState::Down));
+                v.extend(enc(KeyCode::A, KeyState::Up));
+                v.extend(enc(KeyCode::ArrowUp, KeyState::Down));
+                v.extend(enc(KeyCode::ArrowUp, KeyState::Up));
+                v.push(if set2 { 0x9C } else { 0xF0 });
+                fam.push(v);
+            }
+        }
+    }
+    let g1e = fam.len() - g1a - g1b - g1d;
+    (fam, (g1a, g1b, g1d, g1e))
+}
+
+/// first index at which the real decoder (fresh) deviates from the model table, known
+/// findings tolerated
+fn fast_mismatch<M: RefModel>(run: &Run, mtab: &[Vec<(Out, usize)>], ctxs: &[M::Ctx], start_c: usize, bytes: &[u8]) -> Option<usize> {
+    let r = guard(|| {
+        let mut d = <M::D as Dec>::fresh();
+        let mut ci = start_c;
+        for (i, b) in bytes.iter().enumerate() {
+            let o = d.advance_state(*b);
+            let (want, cnext) = mtab[ci][*b as usize];
+            if !M::accepts(ctxs[ci], *b, &o) && !run.is_known(&cell_sig::<M>(ctxs[ci], *b, &want, &sc_out_str(&o))) {
+                return Some(i);
+            }
+            ci = cnext;
+        }
+        None
+    });
+    match r {
+        Ok(x) => x,
+        Err(_) => Some(bytes.len().saturating_sub(1)),
+    }
+}
+
+/// Deep-history families (all against the model at every step):
+///  G1a  A^700 B^j tail      key held for a long time, then j in {1,2,3,5,8} copies of any byte
+///                           (or 2-byte error cell), then the key again / its break / another key
+///  G1b  A s A^2500          key, a protocol/status byte, then the key repeating for > 1 minute
+///  G1c  (c1 c2)^24          every ordered pair of complete cells, repeated 24 times
+///  G1d  X F^n P             an error cell, n event-producing filler bytes with n around 2^8
+///                           (thorough: 2^16), then every byte: distances that wrap a counter
+fn deep_streams<M: RefModel>(run: &mut Run, mtab: &[Vec<(Out, usize)>], ctxs: &[M::Ctx], start_c: usize) {
+    let set2 = <M::D as Dec>::IS_SET2;
+    let (fam, (g1a, g1b, g1d, g1e)) = deep_stream_families(set2, run.tier == Tier::Thorough);
+    let bad: Vec<Vec<u8>> = {
+        let rr: &Run = run;
+        fam.par_iter().filter_map(|v| fast_mismatch::<M>(rr, mtab, ctxs, start_c, v).map(|i| v[..=i].to_vec())).collect()
+    };
+    // G1c: all ordered pairs of cells x 24 (generated on the fly)
+    let mut cells: Vec<Vec<u8>> = Vec::new();
+    for p in sc::PFXS {
+        for c in 0..=255u8 {
+            if !set2 && c >= 0x80 { continue; }
+            let defined = if set2 { sc::set2_lookup(p, c).is_some() } else { sc::set1_lookup(p, c).is_some() };
+            if !defined && !(c % 16 == 2 || c == 0x00 || c == 0x7F) { continue; }
+            let mut m = Vec::new();
+            if let Some(b) = p.byte() { m.push(b); }
+            let mut brk = m.clone();
+            if set2 { m.push(c); brk.push(0xF0); brk.push(c); } else { m.push(c); brk.push(c | 0x80); }
+            cells.push(m);
+            cells.push(brk);
+        }
+    }
+    let reps = 24usize;
+    let bad_pairs: Vec<Vec<u8>> = {
+        let rr: &Run = run;
+        (0..cells.len()).into_par_iter().flat_map_iter(|i| {
+            let mut out = Vec::new();
+            for j in 0..cells.len() {
+                let unit: Vec<u8> = [cells[i].clone(), cells[j].clone()].concat();
+                let v: Vec<u8> = unit.iter().copied().cycle().take(unit.len() * reps).collect();
+                if let Some(k) = fast_mismatch::<M>(rr, mtab, ctxs, start_c, &v) {
+                    if out.len() < 2 { out.push(v[..=k].to_vec()); }
+                }
+            }
+            out.into_iter()
+        }).collect()
+    };
+    let total = fam.len() as u64 + (cells.len() * cells.len()) as u64;
+    run.eval(total);
+    run.nontrivial_enum(total);
+    for v in bad.iter().chain(bad_pairs.iter()).take(10) {
+        eval_stream::<M>(run, v);
+    }
+    run.total_violating_cases += (bad.len() + bad_pairs.len()).saturating_sub(10) as u64;
+    run.part("deep_history_families", json!({"A^700.B^j.tail": g1a, "A.s.A^2500": g1b, "X.F^n.P(wrap probes, n around 2^8 / 2^16)": g1d, "(A^p.B)^m two-scale periodic + long typing sessions (own and other set encoding)": g1e, "cells": cells.len(), "(c1.c2)^24 pairs": cells.len() * cells.len(), "failing": bad.len() + bad_pairs.len()}));
 }
 
 /// byte patterns that are repeated tens of thousands of times
@@ -483,6 +675,112 @@ fn random_streams<M: RefModel>(run: &mut Run, cases: u32) {
         let bytes = gen::sc_stream_bytes(set2, &chunks);
         eval_stream::<M>(run, &bytes);
     }
+}
+
+/// BFS over *concrete* decoder states (cloned), deduplicated by (masked Debug rendering,
+/// model context): a successor is only enqueued if its masked name is new, but the state that
+/// is enqueued and later expanded is the real successor with its real model context, so every
+/// compared cell is a real execution. The mask hides tokens that behaved like a counter on the
+/// transitions sampled from the partial graph.
+fn guided_walk<M: RefModel>(run: &mut Run, g: &Graph<M::D>, mtab: &[Vec<(Out, usize)>], ctxs: &[M::Ctx], start_c: usize) {
+    let set = <M::D as Dec>::NAME;
+    let mut samples: Vec<(String, String)> = Vec::new();
+    'outer: for s in 0..g.expanded().min(400) {
+        let ps = format!("{:?}", g.states[s]);
+        for b in (0..=255u8).step_by(5) {
+            if let Step::Ret(_, j) = g.step(s, b) {
+                if j < g.states.len() {
+                    samples.push((ps.clone(), format!("{:?}", g.states[j])));
+                    if samples.len() >= 6000 { break 'outer; }
+                }
+            }
+        }
+    }
+    let mask = crate::explore::counter_mask(&samples);
+    let masked = mask.iter().filter(|m| **m).count();
+    if masked == 0 {
+        run.part("guided_walk", json!({"note": "graph not closed and no counter-like token found in the Debug rendering: skipped"}));
+        return;
+    }
+    let cap = g.cap;
+    struct Node<D> { st: D, ci: usize, parent: Option<(u32, u8)> }
+    let mut nodes: Vec<Node<M::D>> = vec![Node { st: <M::D as Dec>::fresh(), ci: start_c, parent: None }];
+    let mut seen: std::collections::HashSet<(String, usize)> = std::collections::HashSet::new();
+    seen.insert((crate::explore::apply_mask(&format!("{:?}", nodes[0].st), &mask), start_c));
+    let hist_of = |nodes: &Vec<Node<M::D>>, mut i: usize| -> Vec<u8> {
+        let mut v = Vec::new();
+        while let Some((p, b)) = nodes[i].parent { v.push(b); i = p as usize; }
+        v.reverse();
+        v
+    };
+    let mut level_start = 0usize;
+    let mut cells = 0u64;
+    let mut max_depth = 0usize;
+    let mut depth: Vec<u32> = vec![0];
+    let mut bad: Vec<(usize, u8)> = Vec::new();
+    while level_start < nodes.len() && nodes.len() < cap {
+        let level_end = nodes.len();
+        // expand the level in parallel: per node, per byte -> (accepts, successor, masked name, next ctx)
+        let expanded: Vec<Vec<(bool, Option<(M::D, String)>, usize)>> = nodes[level_start..level_end]
+            .par_iter()
+            .map(|n| {
+                (0..=255u8)
+                    .map(|b| {
+                        let mut st = n.st.clone();
+                        let (_, cnext) = mtab[n.ci][b as usize];
+                        match guard(|| { let o = st.advance_state(b); (o, st) }) {
+                            Ok((o, st2)) => {
+                                let ok = M::accepts(ctxs[n.ci], b, &o);
+                                let name = crate::explore::apply_mask(&format!("{:?}", st2), &mask);
+                                (ok, Some((st2, name)), cnext)
+                            }
+                            Err(_) => (false, None, cnext),
+                        }
+                    })
+                    .collect()
+            })
+            .collect();
+        for (off, row) in expanded.into_iter().enumerate() {
+            let i = level_start + off;
+            for (b, (ok, succ, cnext)) in row.into_iter().enumerate() {
+                cells += 1;
+                if !ok {
+                    // known findings are tolerated exactly as in the graph walk
+                    let (want, _) = mtab[nodes[i].ci][b];
+                    let tolerated = match &succ {
+                        Some((st2, _)) => {
+                            let mut probe = nodes[i].st.clone();
+                            let o = probe.advance_state(b as u8);
+                            let _ = st2;
+                            run.is_known(&cell_sig::<M>(ctxs[nodes[i].ci], b as u8, &want, &sc_out_str(&o)))
+                        }
+                        None => false,
+                    };
+                    if !tolerated {
+                        if bad.len() < 12 { bad.push((i, b as u8)); }
+                        continue;
+                    }
+                }
+                if let Some((st2, name)) = succ {
+                    if nodes.len() < cap && seen.insert((name, cnext)) {
+                        nodes.push(Node { st: st2, ci: cnext, parent: Some((i as u32, b as u8)) });
+                        let d = depth[i] + 1;
+                        depth.push(d);
+                        max_depth = max_depth.max(d as usize);
+                    }
+                }
+            }
+        }
+        level_start = level_end;
+    }
+    run.eval(cells);
+    run.nontrivial_enum(cells.saturating_sub(256));
+    for (i, b) in &bad {
+        let mut bytes = hist_of(&nodes, *i);
+        bytes.push(*b);
+        eval_stream::<M>(run, &bytes);
+    }
+    run.part("guided_walk", json!({"set": set, "counter_like_tokens_masked": masked, "nodes": nodes.len(), "cap": cap, "closed": level_start >= nodes.len(), "max_depth": max_depth, "cells": cells, "failing(sampled)": bad.len()}));
 }
 
 pub fn c01(run: &mut Run) {
@@ -786,6 +1084,20 @@ fn c07_for<D: Dec>(run: &mut Run) {
         run.nontrivial_fp(fp(&("pump", D::NAME, &pat)));
     }
 
+    // (iii'') deep-history families (held key + stray bytes, wrap probes, two-scale periodic
+    //         traffic) through the shadow differential
+    {
+        let (fam, sizes) = deep_stream_families(D::IS_SET2, run.tier == Tier::Thorough);
+        let bad: Vec<usize> = fam.par_iter().enumerate().filter_map(|(i, v)| match shadow_eval::<D>(v) { Ok(None) => None, _ => Some(i) }).collect();
+        run.eval(fam.len() as u64);
+        run.nontrivial_enum(fam.len() as u64);
+        for i in bad.iter().take(6) {
+            c07_eval_stream::<D>(run, &fam[*i]);
+        }
+        run.total_violating_cases += bad.len().saturating_sub(6) as u64;
+        run.part(&format!("{}_deep_history_families", D::NAME), json!({"families(A^700.B^j, A.s.A^2500, wrap probes, (A^p.B)^m)": [sizes.0, sizes.1, sizes.2, sizes.3], "failing": bad.len()}));
+    }
+
     // (iv) random garbage, hook-free
     let n = run.tier.pick(20_000u32, 1_000_000u32);
     let stats = RefCell::new((0u64, 0u64, Vec::<u64>::new(), Vec::<Value>::new()));
@@ -827,7 +1139,7 @@ fn c07_for<D: Dec>(run: &mut Run) {
 }
 
 pub fn c07(run: &mut Run) {
-    run.rule = "Table-independent. (i) On the extracted reachable graph of each decoder, every transition whose output is an event or an error must lead to a state behaviourally equivalent (Mealy partition refinement) to a fresh decoder; (ii) the longest path of Ok(None) transitions is <= 2 (Set 2) / <= 1 (Set 1); (iii) black-box shadow-decoder differential over ALL byte streams of length <= 3 (quick) / <= 4 (thorough): a shadow decoder is replaced by a fresh one whenever the real decoder reports an event or error, outputs must be equal at every step; (iv) the same differential on random garbage streams of <= 256 bytes. Non-trivial = an event/error edge from a non-initial state or an error edge (distinct (state, byte)); a stream containing an error followed by >= 2 more bytes (exhaustive streams are distinct by construction; random ones by byte-string fingerprint).".into();
+    run.rule = "Table-independent. (i) On the extracted reachable graph of each decoder, every transition whose output is an event or an error must lead to a state behaviourally equivalent (Mealy partition refinement) to a fresh decoder; (ii) the longest path of Ok(None) transitions is <= 2 (Set 2) / <= 1 (Set 1); (iii) black-box shadow-decoder differential over ALL byte streams of length <= 3 (quick) / <= 4 (thorough): a shadow decoder is replaced by a fresh one whenever the real decoder reports an event or error, outputs must be equal at every step; (iv) the same differential on deep-history families (key held 700 repeats then stray bytes, wrap probes with 254-258 fillers, two-scale periodic traffic (A^p B)^m with p up to 1024) and on random garbage streams of <= 256 bytes. Non-trivial = an event/error edge from a non-initial state or an error edge (distinct (state, byte)); a stream containing an error followed by >= 2 more bytes (exhaustive streams are distinct by construction; random ones by byte-string fingerprint).".into();
     run.assumptions = vec![
         "determinism of advance_state; hook-derived Clone/PartialEq capture the full state (only (i),(ii) and the prefix sharing of (iii) use them; (iv) is hook-free)".into(),
     ];
